@@ -297,6 +297,64 @@ func c18Run(c *core.Ctx) {
 	// string literal of the sources under test (2..24 bytes) starts a member
 	// name. Whatever signature it spells, the archive is a tar unless one of
 	// the formats that outrank tar claims it.
+	// heavy headers: GNU-format first blocks (the format that permits arbitrary
+	// bytes in names and base-256 numeric fields) whose name, link name and owner
+	// names are runs of high bytes and whose ids / mtime are negative, so that the
+	// header sum climbs past 2^15 and 2^16 — the widths at which a narrower
+	// accumulator, signed or unsigned, would wrap. Written by archive/tar.
+	var heavy, over15, over16 uint64
+	for _, fill := range []string{"\x80", "\xc3", "\xff"} {
+		for _, n1 := range []int{1, 50, 100} {
+			for _, n2 := range []int{0, 60, 100} {
+				for _, n3 := range []int{0, 32} {
+					for _, negative := range []bool{false, true} {
+						if !c.Next() || c.Expired() {
+							continue
+						}
+						h := &tar.Header{Typeflag: tar.TypeSymlink, Name: strings.Repeat(fill, n1), Linkname: strings.Repeat(fill, n2), Uname: strings.Repeat(fill, n3), Gname: strings.Repeat(fill, n3), Mode: 0o777, ModTime: mtimes[0]}
+						if n2 == 0 {
+							h.Typeflag, h.Size = tar.TypeReg, 3
+						}
+						if negative {
+							h.Uid, h.Gid, h.ModTime = -2, -2, time.Unix(-2, 0)
+						}
+						b, err := buildTar(tar.FormatGNU, h)
+						if err != nil || len(b) < 512 {
+							rejected++
+							continue
+						}
+						sum := uint64(0)
+						for i, x := range b[:512] {
+							if i >= 148 && i < 156 {
+								x = ' '
+							}
+							sum += uint64(x)
+						}
+						if sum >= 1<<15 {
+							over15++
+						}
+						if sum >= 1<<16 {
+							over16++
+						}
+						archives++
+						heavy++
+						c.R.States++
+						pos.In, pos.Strs[0], pos.Strs[1] = b, "GNU", fmt.Sprintf("GNU heavy header fill=%q name=%d link=%d owner=%d negative=%v sum=%d", fill, n1, n2, n3, negative, sum)
+						for _, l := range []uint32{0, 512, 3072} {
+							pos.Limit = l
+							c.R.Transitions++
+							c.R.Evals++
+							c.Check(pos)
+						}
+						c.SampleCase("heavy-headers", pos)
+					}
+				}
+			}
+		}
+	}
+	c.Note("heavy-headers", heavy)
+	c.Note("heavy-headers-sum>=2^15", over15)
+	c.Note("heavy-headers-sum>=2^16", over16)
 	var litNames uint64
 	seenName := map[string]bool{}
 	for _, lit := range literals(c) {
